@@ -378,7 +378,7 @@ def iter_next(ex, it):
         return none(ex)
     if isinstance(it, Struct):
         # a rink type implementing Iterator
-        f = ex.prog.lookup('<%s as Iterator>::next' % it.name)
+        f = ex.prog.lookup('<%s%s as Iterator>::next' % ((it.mod + '::') if it.mod else '', it.name))
         if f is not None:
             r = it0 if isinstance(it0, Ref) else Ref(Cell(it, 'iter'))
             return ex.exec_fn(f, [r])
@@ -403,10 +403,11 @@ def into_iter_value(ex, v):
     if isinstance(t, Enum) and t.ty == 'Option':
         return VecIter(t.fields[:1] if t.variant == 1 else [])
     if isinstance(t, Struct):
-        f = ex.prog.lookup('<%s as IntoIterator>::into_iter' % t.name)
+        q = ((t.mod + '::') if t.mod else '') + t.name
+        f = ex.prog.lookup('<%s as IntoIterator>::into_iter' % q)
         if f is not None:
             return ex.exec_fn(f, [t])
-        f = ex.prog.lookup('<%s as Iterator>::next' % t.name)
+        f = ex.prog.lookup('<%s as Iterator>::next' % q)
         if f is not None:
             return v
     raise Unmodelled('into_iter of %r' % (t,))
@@ -832,6 +833,15 @@ def split_top_simple(s):
 
 @model(r'^<(.*) as Clone>::clone$')
 def m_clone(ex, m, args, callee):
+    ty = m.group(1)
+    if re.match(r'^(Arc|Rc|&)', ty) and isinstance(args[0], Ref):
+        inner = load(args[0])
+        if isinstance(inner, Ref):
+            return inner          # shared pointer: clone shares the referent
+    if ty.startswith('Box<') and isinstance(args[0], Ref):
+        inner = load(args[0])
+        if isinstance(inner, Ref):
+            return new_box(clone_value(ex, inner))
     return clone_value(ex, args[0])
 
 
@@ -966,6 +976,8 @@ def m_to_string(ex, m, args, callee):
         return t
     if isinstance(t, Opaque):
         return t
+    if isinstance(t, Enum) and not t.fields:
+        return '<%s::%s>' % (t.ty, t.vname)      # stands for the Display text of a field-less enum (unique per variant)
     return Opaque('string', 'to_string')
 
 
@@ -983,9 +995,26 @@ def m_string_push(ex, m, args, callee):
         store(r, s + chr(x))
     elif isinstance(s, str) and isinstance(x, str):
         store(r, s + x)
+    elif m.group(1) == 'push' and isinstance(s, (str, SymStr)) and (is_z3(x) or is_conc(x)):
+        chars = [ord(c) for c in s] if isinstance(s, str) else list(s.chars)
+        store(r, SymStr(chars + [x]))
     else:
         store(r, Opaque('string', 'pushed'))
     return Tup([])
+
+
+@model(r'^<impl str>::(chars|bytes|char_indices)$')
+def m_str_chars(ex, m, args, callee):
+    t = val(args[0])
+    if isinstance(t, str):
+        cs = [ord(c) for c in t]
+    elif isinstance(t, SymStr):
+        cs = list(t.chars)
+    else:
+        raise Unmodelled('chars of opaque string')
+    if m.group(1) == 'char_indices':
+        return VecIter([Tup([i, c]) for i, c in enumerate(cs)])
+    return VecIter(cs)
 
 
 @model(r'^String::(is_empty|len)$|^<impl str>::(is_empty|len)$')
